@@ -236,6 +236,22 @@ Section Core2Base.
     - destruct (sem_seq2 (sem2 g1 f TOn wp c) body en) eqn:E; try discriminate. rewrite (IHs _ _ _ _ _ _ E). auto.
     - destruct (ev_avt ev_string (slk en) c nm); auto. destruct (pi_ok s); auto.
       destruct (sem_seq2 (sem2 g1 f TOn wp c) body en) eqn:E; try discriminate. rewrite (IHs _ _ _ _ _ _ E). auto.
+    - destruct (nonempty n); auto.
+      destruct (sem_seq2 (sem2 g1 f tm wp c) (use_sets use) en) eqn:E0; try discriminate. rewrite (IHs _ _ _ _ _ _ E0).
+      destruct (ev_atts ev_string (slk en) c atts); auto.
+      destruct (sem_seq2 (sem2 g1 f tm wp c) body en) eqn:E; try discriminate. rewrite (IHs _ _ _ _ _ _ E). auto.
+    - destruct (ev_avt ev_string (slk en) c nm); auto. destruct (name_ok s); auto.
+      destruct (sem_seq2 (sem2 g1 f tm wp c) (use_sets use) en) eqn:E0; try discriminate. rewrite (IHs _ _ _ _ _ _ E0).
+      destruct (sem_seq2 (sem2 g1 f tm wp c) body en) eqn:E; try discriminate. rewrite (IHs _ _ _ _ _ _ E). auto.
+    - destruct (node_shallow (cnode c)); auto.
+      + destruct (nonempty n); cbn [andb]; auto. destruct (elem_guard g1 tm) eqn:Eg; try discriminate.
+        rewrite (elem_guard_mono _ _ _ Hg Eg).
+        destruct (sem_seq2 (sem2 g1 f tm wp c) (use_sets use) en) eqn:E0; try discriminate. rewrite (IHs _ _ _ _ _ _ E0).
+        destruct (sem_seq2 (sem2 g1 f tm wp c) body en) eqn:E; try discriminate. rewrite (IHs _ _ _ _ _ _ E). auto.
+      + destruct (sem_seq2 (sem2 g1 f tm wp c) body en) eqn:E; try discriminate. rewrite (IHs _ _ _ _ _ _ E). auto.
+      + destruct (copy_guard g1 tm its) eqn:E; try discriminate. rewrite (copy_guard_mono _ _ _ _ _ Hg E). auto.
+    - destruct (nth_error templates (N.to_nat k)) as [[]|]; auto.
+      destruct (sem_seq2 (sem2 g1 f tm wp c) (set_body use atts) []) eqn:E; try discriminate. rewrite (IHs _ _ _ _ _ _ E). auto.
   Qed.
 
   Lemma sem_S : forall g f tm wp c, gle (sem2 g f tm wp c) (sem2 g (S f) tm wp c).
